@@ -91,10 +91,11 @@ def check_stream(case, ctx):
                         d.update(X)
                 errs.append(None)
             except ValueError as e:
-                errs.append(str(e))
+                errs.append(e)
         hist.append(np.array([[item[0]]]) if spec.kind == "x" else None)
         if errs[0] is not None or (twin is not None and errs[1] is not None):
-            if name == "CUSUM" and all(e is None or "Standard deviation is 0" in e for e in errs) and (twin is None or (errs[0] is None) == (errs[1] is None)):
+            dets_ = (det, twin)
+            if name == "CUSUM" and all(e is None or cat.is_domain_end(name, dets_[j], e) for j, e in enumerate(errs)) and (twin is None or (errs[0] is None) == (errs[1] is None)):
                 ctx.label("truncated-sigma-zero")
                 break
             _viol("exception-differs-from-twin", name, f"running detector raised {errs[0]!r}, fresh twin raised {errs[1]!r}", case, i)
@@ -119,7 +120,7 @@ def check_stream(case, ctx):
 
 
 # -------------------------------------------------------------------- batch
-def batch_obs(det, name, off, twin_since):
+def batch_obs(det, name, off, twin_since, ncols=1):
     o = cat.observe(det, deep=(name == "KdqTreeBatch"))
     out = {"state": o["state"]}
     if name in ("HDDDM", "CDBD"):
@@ -134,7 +135,7 @@ def batch_obs(det, name, off, twin_since):
         if twin_since >= 2:
             fe = getattr(det, "feature_epsilons", None)
             out["feature_epsilons"] = None if fe is None else [float(v) for v in fe]
-        if o["state"] == "drift" and det._input_col_dim > 1:
+        if o["state"] == "drift" and ncols > 1:
             fi = getattr(det, "feature_info", None)
             out["feature_info"] = None if fi is None else {k: (list(map(float, v)) if isinstance(v, list) else int(v)) for k, v in fi.items()}
     if name == "NNDVI":
@@ -201,8 +202,8 @@ def check_batch(case, ctx):
                 np.random.seed(base + i)
                 twin.update(X)
         if twin is not None:
-            b, ob = batch_obs(twin, name, 0, twin.batches_since_reset)
-            a, oa = batch_obs(det, name, 0, twin.batches_since_reset)
+            b, ob = batch_obs(twin, name, 0, twin.batches_since_reset, case["ncols"])
+            a, oa = batch_obs(det, name, 0, twin.batches_since_reset, case["ncols"])
             if auto_epoch:
                 a["since"] = oa["batches_since_reset"]
                 b["since"] = ob["batches_since_reset"]
